@@ -292,6 +292,10 @@ def token_tree(src, a, b, kind):
         return mk_pair(src, 'FilterChain', a, b, [mk_pair(src, 'Value', a, b, [mk_pair(src, 'Variable', a, b, [mk_pair(src, 'Identifier', a, b)])])])
     if kind == 'lit':
         return mk_pair(src, 'FilterChain', a, b, [mk_pair(src, 'Value', a, b, [mk_pair(src, 'Literal', a, b, [mk_pair(src, 'IntegerLiteral', a, b)])])])
+    if kind == 'str':
+        return mk_pair(src, 'FilterChain', a, b, [mk_pair(src, 'Value', a, b, [mk_pair(src, 'Literal', a, b, [mk_pair(src, 'StringLiteral', a, b)])])])
+    if kind in ('Colon', 'Comma', 'Assign'):
+        return mk_pair(src, kind, a, b)
     raise ValueError(kind)
 
 
@@ -308,6 +312,8 @@ def block_elements(name, start_args, inner):
     }
     for iname, iargs in inner:
         el[iname] = ('Tag', '{%' + iname + ''.join(' ' + t for t, _ in iargs) + '%}', iname, iargs)
+        if not iargs:       # an inner tag that takes no arguments, given one
+            el[iname + '_arg'] = ('Tag', '{%' + iname + ' foo%}', iname, [('foo', 'var')])
     return el
 
 
@@ -332,12 +338,14 @@ def build_stream2(kinds, elements):
     return src, pairs
 
 
-def run_parse2(ex, P, st, kinds, elements, block_name, block_struct, depth=0):
-    """like run_parse, with the real block `block_struct` registered as `block_name` and the abstract tag `assign`"""
+def run_parse2(ex, P, st, kinds, elements, block_name, block_struct, depth=0, real_tags=None):
+    """like run_parse, with the real block `block_struct` registered as `block_name`, the abstract tag `assign` and the real tags `real_tags` (name -> struct)"""
     src, pairs = build_stream2(kinds, elements)
     plugins = Plugins(P, st)
-    blocks = MapV((block_name,), (st.ref(Adt(block_struct, None, []), True),), 'HashMap')
-    tags = MapV(('assign',), (st.ref(plugins.tag_plugin('assign'), True),), 'HashMap')
+    blocks = MapV((block_name,), (st.ref(Adt(block_struct, None, []), True),), 'HashMap') if block_name else MapV((), (), 'HashMap')
+    tnames = ['assign'] + list(real_tags or {})
+    tvals = [st.ref(plugins.tag_plugin('assign'), True)] + [st.ref(Adt(v, None, []), True) for v in (real_tags or {}).values()]
+    tags = MapV(tuple(tnames), tuple(tvals), 'HashMap')
     lang = st.ref(Adt('Language', None, [Adt('PluginRegistry', None, [blocks], ['plugins']), Adt('PluginRegistry', None, [tags], ['plugins']),
                                           Adt('PluginRegistry', None, [MapV((), (), 'HashMap')], ['plugins'])], ['blocks', 'tags', 'filters']))
     it = st.ref(mk_list_iter(pairs), True)
